@@ -387,6 +387,8 @@ def run(ctx: Ctx, tier: str) -> Result:
         res.fail(Finding("C07.MERGE", mv.qname, "<self._var_lookup.update(lookup)>", mv.loc(), "merge_var_lookup does not add the entries to the snapshot's table"))
     from .common import borrow
     borrow(ctx, res, tier, "c06", ("C06.TOTAL",), "C07.TOTAL", "a value that cannot be rendered is recorded with a placeholder: an aborted evaluation would leave ids without entries")
+    borrow(ctx, res, tier, "c06", ("C06.INDEP",), "C07.TABLE", "each snapshot has a variable table of its own, numbered by its own identity cache: tables shared between the "
+           "snapshots of one event overwrite each other's ids")
     return res
 
 
